@@ -622,11 +622,12 @@ def run(ctx):
         evaluate_workloads(ctx, res, cw, 'corpus')
     res['scopes']['corpus'] = len(cr) + len(cw)
     # (b) exhaustive recalibration grid
-    cases = list(recalc_cases(ctx.deep and not res.failed))
+    full = ctx.tier == 'thorough'
+    cases = list(recalc_cases(full and not res.failed))
     evaluate_recalc(ctx, res, cases)
     res['scopes']['recalc_grid'] = {'currents': '1..250', 'points': len(cases)}
     # (c) workloads
-    nwl = 4000 if ctx.deep and not res.failed else 300
+    nwl = (4000 if full else 900) if ctx.deep and not res.failed else 300
     wls = [random_workload(rng, big=(k % 3 == 0)) for k in range(nwl)]
     evaluate_workloads(ctx, res, wls, 'random')
     res['scopes']['workloads'] = nwl
